@@ -8,11 +8,12 @@ ID = "C01"
 LEVEL = "proof"
 PROPS_FILE = "C01.v"
 RUN_MODULE = "RunC01"
-TRANSLATOR_UNITS = ["opshape"]
+TRANSLATOR_UNITS = ["opshape", "derived"]
 SHARD = 250
 RULE = ("exhaustive: every unary/binary operator x operand shapes {u0..u3,s1..s3} x all operand values; "
         "every slice / part-select(all offsets, widths 0..3, strides 1..2) / cat of two / 2-case switch over shapes u0..u3,s1..s3; "
-        "derived operators (abs, constant shifts, rotates, replicate, matches, int/slice/stepped indexing, Mux, Array) built through "
+        "derived operators (abs, shifts by any integer, rotates, replicate, matches, int/slice/stepped indexing with every slice object over small bounds, "
+        "bit_select/word_select around the fold boundary, Mux, Array) built through "
         "the public API and nested in random trees; random: seeded expression trees depth<=4 (thorough 6), <=4 signals, widths<=8 (thorough<=40), 6 boundary-biased stimuli; "
         "malformed stream (signed shift amounts/offsets, bad slices, bad patterns, zero-width as_signed) compared on accept/reject. "
         "non-trivial = well-formed, contains an operator node and a signal, and the observed results differ between two stimuli; "
@@ -20,7 +21,9 @@ RULE = ("exhaustive: every unary/binary operator x operand shapes {u0..u3,s1..s3
 MODELLED = ("value nodes of hdl/_ast.py (Const, Signal, Operator, Slice, Part, Concat, SwitchValue) and their shape() in "
             "coq/Model/Ast.v; _RHSValueCompiler in coq/Model/PyRTL.v (raw-integer semantics of the generated Python); "
             "_pyeval.eval_value in coq/Model/PyEval.v; the rewriting definitions of abs/shift_*/rotate_*/replicate/matches/__getitem__/"
-            "Mux/ArrayProxy.as_value in coq/Model/Derived.v (stepped slices and Python slice normalisation: tied by the run only, no theorem)."
+            "Mux/bit_select/word_select/ArrayProxy.as_value in coq/Model/Derived.v; the Value methods are also REGENERATED from hdl/_ast.py "
+            "(translator unit `derived`, Gen/DerivedGen.v) and proved equal to the model; slice.indices/range of CPython are read by "
+            "py_key_indices/py_range and compared with the interpreter (stream pyb); matches()/_normalize_patterns are hand-modelled only."
             " exec() of generated code, ValueVisitor dispatch, the delta-cycle "
             "engine and Signal commit are exercised by the differential run only")
 ASSUMPTIONS = ["signals hold normalised values (env_ok), as _PySignalState guarantees"]
@@ -33,6 +36,8 @@ def all_values(w, sg):
 
 
 def classify(c):
+    if c.get("k") == "pyb":
+        return "pyb:slice.indices"
     return c.get("stream", "?") + ":" + c["e"][0] + (":" + c["e"][1] if c["e"][0] in ("o1", "o2") else "")
 
 
@@ -40,6 +45,8 @@ RUN_IMPORTS = "Derived"
 
 
 def nontrivial(c, obs):
+    if c.get("k") == "pyb":
+        return len(obs) > 4
     if not obs or obs[0] != 1:
         return False
     body = obs[3:]
@@ -120,6 +127,39 @@ def gen_cases(tier, seed):
             one(["d_match", ["s", 0], [G._binpat(w, v)] if lo <= v < hi else [], [v]])
         if w >= 1:
             one(["d_match", ["s", 0], [G._binpat(w, lo), "1" * w], [lo, "1" * w]])
+        # every Python slice object over small bounds (None, negative, beyond the ends) and steps
+        bounds = [None] + list(range(-w - 1, w + 2))
+        for a in bounds:
+            for b in bounds:
+                for st in (None, 1, -1, 2, -2, 3, -3):
+                    if sg and (a is not None and b is not None) and (a + b) % 2:
+                        continue                      # thin the signed copies
+                    one(["d_key", ["s", 0], [a, b, st]])
+        for n in range(-w - 2, 0):
+            one(["d_shl", ["s", 0], n])
+            one(["d_shr", ["s", 0], n])
+        # bit_select / word_select: constant offsets on both sides of the fold boundary, and a variable offset
+        for pw in range(0, 4):
+            for v in range(0, 5):
+                one(["d_bsel", ["s", 0], ["c", v, 3, False], pw])
+                if pw >= 1:
+                    one(["d_wsel", ["s", 0], ["c", v, 3, False], pw])
+            cases.append({"stream": "exd", "sigs": [sh, [2, False]], "e": ["d_bsel", ["s", 0], ["s", 1], pw],
+                          "stims": [[x, y] for x in all_values(*sh) for y in range(4)]})
+            if pw >= 1:
+                cases.append({"stream": "exd", "sigs": [sh, [2, False]], "e": ["d_wsel", ["s", 0], ["s", 1], pw],
+                              "stims": [[x, y] for x in all_values(*sh) for y in range(4)]})
+    # the reading of the Python builtins slice.indices / range used by Value.__getitem__ (model vs CPython itself)
+    for n in range(0, 6):
+        bounds = [None] + list(range(-n - 2, n + 3))
+        for a in bounds:
+            for b in bounds:
+                for st in (None, 0, 1, -1, 2, -2, 3, -3, 4, 7, -7):
+                    cases.append({"stream": "pyb", "k": "pyb", "len": n, "key": [a, b, st]})
+    for _ in range(300 if not thorough else 5000):
+        n = rng.randrange(0, 70)
+        f = lambda: rng.choice((None, rng.randrange(-2 * n - 3, 2 * n + 4), rng.randrange(-3, 4)))
+        cases.append({"stream": "pyb", "k": "pyb", "len": n, "key": [f(), f(), rng.choice((None, 1, -1, rng.randrange(-9, 10)))]})
     # derived operators (abs, shifts/rotates by constants, replicate, matches, indexing/slicing, Mux, Array)
     D = 1500 if not thorough else 30000
     for i in range(D):
@@ -139,6 +179,12 @@ def gen_cases(tier, seed):
 
 
 def run_impl(c):
+    if c.get("k") == "pyb":
+        try:
+            a, b, st = slice(*c["key"]).indices(c["len"])
+        except ValueError:
+            return [0]
+        return [1, a, b, st] + list(range(a, b, st))
     from amaranth.hdl import Signal, Shape, Module
     from amaranth.sim import Simulator
     sigs = [Signal(Shape(w, bool(s)), name=f"i{k}") for k, (w, s) in enumerate(c["sigs"])]
@@ -173,6 +219,10 @@ def run_impl(c):
 
 
 def coq_term(c):
+    if c.get("k") == "pyb":
+        o = lambda x: "None" if x is None else f"(Some {z(x)})"
+        k = c["key"]
+        return f"k_key_indices {z(c['len'])} (Key {o(k[0])} {o(k[1])} {o(k[2])})"
     return f"k_expr {G.coq_expr(c['e'], c['sigs'])} [" + "; ".join(zlist(s) for s in c["stims"]) + "]"
 
 
